@@ -127,3 +127,38 @@ Fixpoint outs_v0 (c : cache) (h : list op) : list bool :=
 
 (* Sizes() *)
 Definition sizes (c : cache) : Z * Z := (Z.of_nat (length (cur c)), Z.of_nat (length (prev c))).
+
+(* ---- the server around the cache: management reloads ----
+   pkg/protocol/mux.go: Mux.SetServerUsers (the body of the management Reload RPC of pkg/appctl/server.go,
+   "Adjust users") swaps in a new generation of the user table and does nothing else: the two process-wide
+   replay caches are package variables that it does not touch.  The server state, as far as replays are
+   concerned, is the pair (users generation, replay cache); a generation is an opaque number here (which
+   users, passwords and quotas it stands for is the subject of model/ServerFront.v's [cands]). *)
+Record server := mkServer { s_users : N; s_rc : cache }.
+
+Definition set_users (s : server) (g : N) : server := mkServer g (s_rc s).
+
+Inductive sop :=
+| Present (o : op)        (* traffic: IsDuplicate(signature, tag) at an instant *)
+| Reload (g : N).         (* management: SetServerUsers with generation g *)
+
+(* None = no answer (a reload); Some b = IsDuplicate's answer *)
+Definition sstep (s : server) (e : sop) : option bool * server :=
+  match e with
+  | Present o => let (b, c) := step (s_rc s) o in (Some b, mkServer (s_users s) c)
+  | Reload g => (None, set_users s g)
+  end.
+
+Fixpoint sfinal (s : server) (h : list sop) : server :=
+  match h with
+  | [] => s
+  | e :: h' => sfinal (snd (sstep s e)) h'
+  end.
+
+(* the traffic of a history, reloads dropped *)
+Fixpoint presents (h : list sop) : list op :=
+  match h with
+  | [] => []
+  | Present o :: h' => o :: presents h'
+  | Reload _ :: h' => presents h'
+  end.
